@@ -192,6 +192,10 @@ def r1(ctx):
               f"compiled counterparts (sentinel values) would be paired wrongly",
               f"single bound `{next(iter(bounds)) if bounds else '?'}`", f"{f.module.path}:{w.lineno}")
     bound = next(iter(bounds)) if len(bounds) == 1 else None
+    if bound is None and L in reads:
+        # disagreeing bounds were reported above; the remaining clauses are judged against the read bound
+        ub = reads[L][1][1]
+        bound = ub if ub.isidentifier() else None
     # (b) exactly one yield / one counter increment per round
     tnode = g.nodes_for(w)
     ctx.require(len(tnode) == 1, "while test node not unique")
@@ -242,7 +246,8 @@ def r1(ctx):
     ctx.require(len(tb_defs) == 1, f"`{tb.id}` bound {len(tb_defs)} times")
     expr = tb_defs[0][0]
     names = sorted({n.id for n in ast.walk(expr) if isinstance(n, ast.Name)} - {"math", "ceil", "int", "divmod", "bool", "max", "min"})
-    ctx.require(bound is None or bound in names, f"`{tb.id}` is not computed from the slice bound `{bound}` (uses {names})")
+    ctx.require(bound is not None, "slice bound is not a plain name")
+    ctx.require(bound in names, f"`{tb.id}` is not computed from the slice bound `{bound}` (uses {names})")
     other = [n for n in names if n != bound]
     ctx.require(len(other) == 1, f"`{tb.id}` = `{unparse(expr)}`: cannot identify the row-count variable among {other}")
     # the row count variable must be len(<parameters>)
@@ -428,6 +433,9 @@ def r2(ctx):
         ctx.check(handled, f"{base}:unmatched-sentinel-raises",
                   "a sentinel value with no matching row is not turned into the documented InvalidRequestError",
                   "except KeyError -> InvalidRequestError", f"{f.module.path}:{cst.lineno}")
+    if not any(k.startswith("lookup:") for k, *_ in kinds):
+        for a_ in (":lookup-in-parameter-order", ":cardinality-check-dominates-lookup", ":unmatched-sentinel-raises"):
+            ctx.violation(base + a_, "cannot be established: no per-parameter lookup of rows on the sentinel branch", f.loc)
     # (d) sort_by_parameter_order handed to the compiler-level generator
     gen_calls = [c for c in calls_in(f.node) if (call_name(c) or "").endswith("._deliver_insertmanyvalues_batches")]
     ctx.require(len(gen_calls) == 1, "call of compiled._deliver_insertmanyvalues_batches not found")
@@ -464,7 +472,7 @@ def _in_list(pm, st, lst):
     return False
 
 
-@R.rule("C12-R3", floor=10, template="T-TABLE",
+@R.rule("C12-R3", floor=12, template="T-TABLE",
         desc="sentinel capability tables: keys are _SentinelDefaultCharacterization members, values "
              "InsertmanyvaluesSentinelOpts members; same-named kinds map to themselves, client-side kinds to any "
              "backend, server-side/unknown defaults are absent; the autoincrement table only adds NONE->AUTOINCREMENT; "
@@ -560,8 +568,8 @@ R.mutant("lookup-in-server-order", DEF,
          sub("                            for sentinel_keys in imv_batch.sentinel_values\n", "                            for sentinel_keys in rows_by_sentinel\n"), "C12-R2")
 R.mutant("implicit-sentinel-sorted-on-first-column", DEF,
          sub("                            sorted(rows, key=operator.itemgetter(-1))\n", "                            sorted(rows, key=operator.itemgetter(0))\n"), "C12-R2")
-R.mutant("keyerror-swallowed", DEF,
-         sub("                    except KeyError as ke:\n", "                    except LookupError as ke:\n                        ordered_rows = list(rows)\n                    except IndexError as ke:\n"), "C12-R2")
+R.mutant("keyerror-not-translated", DEF,
+         sub("                    except KeyError as ke:\n", "                    except IndexError as ke:\n"), "C12-R2")
 R.mutant("sort-flag-without-returning", DEF,
          sub("        else:\n            sort_by_parameter_order = False\n            result = None\n", "        else:\n            sort_by_parameter_order = imv.sort_by_parameter_order\n            result = None\n"), "C12-R2")
 R.mutant("sequence-matched-to-identity", COMP,
